@@ -65,6 +65,7 @@ type gArgs struct {
 	Lid  int    `json:"lid,omitempty"`
 	K    string `json:"k,omitempty"`
 	ID   int    `json:"id,omitempty"`
+	Intr bool   `json:"intr,omitempty"` // Release: the first unlock attempt is interrupted (a reader holds a read lock), then retried
 }
 
 type oRes struct {
@@ -180,6 +181,7 @@ type runResult struct {
 	Steps               int
 	Forwards            int
 	Overlapped          int // forwarded commits executed overlapped with the expiry that follows them in the script
+	InterruptedReleases int
 	OverlapExpiredEarly int
 	Nontrivial          bool
 	Fails               []failure
@@ -266,6 +268,7 @@ type engine struct {
 	stepPre              int64
 	granted, interesting bool
 	expiredInFlight      bool
+	lastHolderCommitSeq  int64
 	lagEntered           chan struct{}
 	httpSeen             int64
 }
@@ -789,6 +792,7 @@ func (e *engine) doStep(st step) {
 			}
 		}
 		if r.Err == nil {
+			e.lastHolderCommitSeq = w.rec.mark()
 			// M5: on the primary under the same (txid, checksum) before the commit returned
 			e.res.Evals++
 			found := w.rec.between(r.CallSeq, r.RetSeq, func(ev event) bool {
@@ -832,6 +836,23 @@ func (e *engine) doStep(st step) {
 			break
 		}
 		var err error
+		if st.G.Intr && e.cfg.WAL {
+			// another connection on the holder is inside a read transaction: the checkpoint that the release
+			// performs cannot get the write lock, the unlock request is interrupted (EINTR) and retried
+			rc := w.n["R"].Connect(w.db, 9100+uint64(e.i))
+			if oerr := firstNonNil(rc.OpenDB(false), rc.OpenSHM(), rc.LockSHM(fuse.LockRead, 128, 128), rc.LockSHM(fuse.LockRead, 124, 124)); oerr == nil {
+				// (a FUSE interrupt cancels the request's context; a deadline would not be answered with EINTR)
+				ictx, icancel := context.WithCancel(context.Background())
+				tm := time.AfterFunc(150*time.Millisecond, icancel)
+				_, _ = bounded("Unlock (to be interrupted)", 20*time.Second, func() { _ = e.hh.unlock(ictx) })
+				tm.Stop()
+				icancel()
+				e.res.InterruptedReleases++
+			}
+			_ = rc.LockSHM(fuse.LockUnlock, 124, 124)
+			_ = rc.LockSHM(fuse.LockUnlock, 128, 128)
+			rc.Close()
+		}
 		ctx, cancel := context.WithTimeout(context.Background(), 3*time.Second)
 		pn, to := bounded("Unlock", 30*time.Second, func() {
 			if e.cfg.Flush {
@@ -1256,6 +1277,7 @@ func (e *engine) finish() {
 			e.checkWindow(win)
 		}
 	}
+	openWriterAtEnd := e.lw != nil
 	if e.lw != nil {
 		// a writer left open by the script: give it up only after every check that looks at positions
 		defer func(tx *openTx) { _, _ = bounded("abort-open-writer", 30*time.Second, func() { w.abortTx(tx) }) }(e.lw)
@@ -1308,6 +1330,36 @@ func (e *engine) finish() {
 			}
 		}
 	}
+	// C01 on the holder: once it is back at the primary's position, what a SQLite connection reads on it
+	// (database file + the frames its wal-index declares valid) is the primary's image. The wal-index is
+	// authoritative when LiteFS wrote it last, i.e. when the holder's last position change was an apply.
+	// (not while the script left a local writer open on the primary: its uncommitted pages are in the file)
+	if !e.dead && !openWriterAtEnd && !e.blocked["R"] && !e.pchanged && len(w.n["R"].Exits()) == 0 && len(w.n[e.prim].Exits()) == 0 {
+		deadline := time.Now().Add(10 * time.Second)
+		for w.pos("R") != w.pos(e.prim) && time.Now().Before(deadline) {
+			time.Sleep(2 * time.Millisecond)
+		}
+		if rp := w.pos("R"); rp == w.pos(e.prim) && rp.TXID > 0 {
+			var lastR event
+			for _, ev := range w.rec.snapshot() {
+				if ev.Node == "R" && ev.Kind == "pos" {
+					lastR = ev
+				}
+			}
+			applied := lastR.Seq > e.lastHolderCommitSeq // the holder's own commits are recorded by RTx
+			if applied {
+				e.res.Evals++
+				view, ok, verr := sim.SQLiteView(w.n["R"].DBDir(w.db), w.o.Layout.PageSize)
+				pim, perr := sim.StableDiskImage(w.n[e.prim].DBDir(w.db), w.o.Layout.PageSize)
+				if ok && verr == nil && perr == nil {
+					if same, why := view.Equal(pim, w.o.Layout.LockPgno()); !same {
+						e.fail("C13.holder-identical-to-primary-afterwards", "holder-view-differs-from-primary", false, map[string]any{
+							"position": rp.String(), "why": why, "holder_wal_bytes": w.walSize("R")})
+					}
+				}
+			}
+		}
+	}
 	// leads outside C13 (recorded, never a verdict)
 	if !e.blocked["R"] && !e.dead {
 		lt := w.lockTable("R")
@@ -1349,9 +1401,21 @@ func directed() []script {
 			mk("RTx", none), mk("Release", none)}},
 		{NoModel: true, Src: "directed/lost-commit-request", H: []step{
 			mk("Acquire", none), mk("RTx", gArgs{F: "reqlost"}), mk("RTx", none), mk("Release", none), mk("LWBegin", gArgs{}), mk("LWCommit", gArgs{})}},
+		{NoModel: true, Src: "directed/interrupted-release", H: []step{
+			mk("Acquire", none), mk("RTx", none), mk("Release", gArgs{F: "none", Intr: true}), mk("LWBegin", gArgs{}), mk("LWCommit", gArgs{}),
+			mk("Acquire", none), mk("RTx", none), mk("RTx", none), mk("Release", gArgs{F: "none", Intr: true}), mk("LWBegin", gArgs{}), mk("LWCommit", gArgs{})}},
 		{NoModel: true, Src: "directed/lagging-holder", H: []step{
 			mk("Lag", gArgs{}), mk("LWBegin", gArgs{}), mk("LWCommit", gArgs{}), mk("LagWait", gArgs{}), mk("Acquire", none), mk("RTx", none), mk("Release", none)}},
 	}
 }
 
 var _ = json.Marshal
+
+func firstNonNil(errs ...error) error {
+	for _, e := range errs {
+		if e != nil {
+			return e
+		}
+	}
+	return nil
+}
